@@ -350,6 +350,44 @@ func generateOnce(r Rand, cfg Config) *Grammar {
 		}
 		g.Rules = append(g.Rules, rule)
 	}
+	// make every rule reachable: a rule nobody references gets a reference
+	// from an earlier rule (in place of a terminal, or appended)
+	if !cfg.FreeRefs {
+		for j := 1; j < len(g.Rules); j++ {
+			used := false
+			for i := 0; i < len(g.Rules) && !used; i++ {
+				if i == j {
+					continue
+				}
+				Walk(g.Rules[i].Expr, func(e *Expr) {
+					if e.Kind == Ref && e.Name == g.Rules[j].Name {
+						used = true
+					}
+				})
+			}
+			if used {
+				continue
+			}
+			host := g.Rules[c.r.Intn(j)]
+			var terms []*Expr
+			inRecovery := map[*Expr]bool{}
+			Walk(host.Expr, func(e *Expr) {
+				if e.Kind == Recover {
+					Walk(e.Subs[1], func(x *Expr) { inRecovery[x] = true })
+				}
+			})
+			Walk(host.Expr, func(e *Expr) {
+				if (e.Kind == Lit || e.Kind == Class || e.Kind == Any) && !inRecovery[e] {
+					terms = append(terms, e)
+				}
+			})
+			if len(terms) > 0 && c.chance(2, 3) {
+				*terms[c.r.Intn(len(terms))] = Expr{Kind: Ref, Name: g.Rules[j].Name}
+			} else {
+				host.Expr = &Expr{Kind: Seq, Subs: []*Expr{host.Expr, {Kind: Opt, Subs: []*Expr{{Kind: Ref, Name: g.Rules[j].Name}}}}}
+			}
+		}
+	}
 	if cfg.SharedLeaf {
 		leaf := &Rule{Name: "Leaf", Expr: c.terminal()}
 		g.Rules = append(g.Rules, leaf)
